@@ -199,7 +199,27 @@ func genCase(r *hx.Rand, tier string) *caseT {
 				k.Prog = append(k.Prog, opT{K: "H", Key: h[0], Vals: []string{h[1]}})
 			}
 		}
-		if r.Chance(1, 5) {
+		if r.Chance(1, 3) {
+			// conditional / range requests answered by http.ServeContent: 206 with Content-Range, 304, 416
+			d := chunk()
+			if len(d) < 20 {
+				d = append(d, []byte("0123456789abcdefghijklmnopqrstuvwxyz")...)
+			}
+			switch r.Intn(4) {
+			case 0:
+				k.ReqHdr = [][2]string{{"Range", hx.Pick(r, []string{"bytes=0-9", "bytes=5-", "bytes=-7", "bytes=0-0"})}}
+			case 1:
+				k.ReqHdr = [][2]string{{"Range", hx.Pick(r, []string{"bytes=999999-", "bytes=x-y", "lines=1-2"})}}
+			case 2:
+				k.Prog = append(k.Prog, opT{K: "H", Key: "Etag", Vals: []string{"\"v7\""}})
+				k.ReqHdr = [][2]string{{"If-None-Match", hx.Pick(r, []string{"\"v7\"", "\"other\"", "*", "W/\"v7\""})}}
+			default:
+				k.Prog = append(k.Prog, opT{K: "H", Key: "Etag", Vals: []string{"\"v7\""}})
+				k.ReqHdr = [][2]string{{"If-Range", "\"v7\""}, {"Range", "bytes=1-3"}}
+			}
+			k.Head = r.Chance(1, 6)
+			k.Prog = append(k.Prog, opT{K: "Sc", S: hx.Pick(r, []string{"f.txt", "f.bin", "noext", "f.html"}), Data: d})
+		} else if r.Chance(1, 5) {
 			cs := [][]byte{chunk()}
 			if len(cs[0]) == 0 {
 				cs[0] = []byte("x")
@@ -313,8 +333,11 @@ func genCase(r *hx.Rand, tier string) *caseT {
 		}
 		return k
 	}
+	if !simple && r.Chance(1, 12) {
+		k.Head = true
+	}
 	pn := -1
-	if r.Chance(1, 14) {
+	if !k.Head && r.Chance(1, 14) {
 		// the handler panics somewhere; recovery.New() sits in front of the compression middleware
 		k.Recovery = true
 		pn = r.Range(0, nops)
@@ -513,6 +536,12 @@ func fixedCases() []*caseT {
 			{K: "D", Key: "Cache-Control"}, {K: "H", Key: "X-Cache-Control", Vals: []string{"private"}}, {K: "B", Data: []byte("body")}}},
 		{Path: "/p", AE: gz, Opt: optT{MinSize: 1024}, Prog: []opT{ct, {K: "H", Key: "Cache-Control", Vals: []string{"no-store"}}, {K: "H", Key: "X-Early", Vals: []string{"original"}}, {K: "W", Code: 200},
 			{K: "D", Key: "Cache-Control"}, {K: "D", Key: "X-Early"}, {K: "H", Key: "X-Late", Vals: []string{"1"}}, {K: "B", Data: []byte("body")}}},
+		// HEAD, Range and conditional requests
+		{Path: "/p", AE: gz, Head: true, Prog: []opT{ct, {K: "W", Code: 200}, {K: "B", Data: []byte("head body")}}},
+		{Path: "/p", AE: gz, Head: true, Prog: []opT{{K: "B", Data: []byte("<html>sniff me")}}},
+		{Path: "/p", AE: gz, ReqHdr: [][2]string{{"Range", "bytes=0-9"}}, Prog: []opT{{K: "Sc", S: "f.txt", Data: bytes.Repeat([]byte("0123456789"), 10)}}},
+		{Path: "/p", AE: gz, ReqHdr: [][2]string{{"If-None-Match", "\"v7\""}}, Prog: []opT{{K: "H", Key: "Etag", Vals: []string{"\"v7\""}}, {K: "Sc", S: "f.txt", Data: bytes.Repeat([]byte("0123456789"), 10)}}},
+		{Path: "/p", AE: gz, ReqHdr: [][2]string{{"Range", "bytes=999999-"}}, Prog: []opT{{K: "Sc", S: "f.txt", Data: bytes.Repeat([]byte("0123456789"), 10)}}},
 		// a failed upgrade attempt answered over plain HTTP; a response written after the request context ended
 		{Path: "/p", AE: gz, Prog: []opT{{K: "Hj"}, ct, {K: "W", Code: 426}, {K: "B", Data: []byte("upgrade required")}}},
 		{Path: "/p", AE: gz, Opt: optT{MinSize: 64}, Prog: []opT{ct, {K: "B", Data: []byte("held back")}, {K: "Hj"}, {K: "B", Data: []byte(" and more")}}},
